@@ -175,6 +175,12 @@ func runC13(c *Ctx) {
 			switch {
 			case len(self) == 0:
 				r.OK("R13.2", key, c.Pos(w.fn.Pos()), "worker returns only when told to terminate; failed items do not end it")
+			case awaited(a) && w.fn == rw && noopCloserExists(c) != "":
+				// the writer ended on its own and Channel.run reacts by closing the transport and joining the reader: that
+				// only ends the channel if Close unblocks the reader's Read, which a no-op Close wrapper does not
+				r.Fail("R13.2", key, c.Pos(self[0].Pos()),
+					"the writer returns on its own (failed write) and Channel.run awaits it, but closing the channel then depends on the reader ending, and "+noopCloserExists(c)+
+						" wraps transports (custom, UDP broadcast endpoints) with a Close that does nothing: on those endpoints the reader never ends, no close event is pushed and the channel stays open with no writer, discarding all further output")
 			case awaited(a):
 				r.OK("R13.2", key, c.Pos(self[0].Pos()), "worker can end on its own and Channel.run's select awaits its result (channel is closed and reported)")
 			default:
@@ -956,7 +962,7 @@ func runC10(c *Ctx) {
 	// R10.4 one event per read result
 	r.Rule("R10.4", "runReader loop: every path from the read of the transport back to the loop head pushes exactly one event — an EventParseError carrying the read error on the frame.ReadError edge, "+
 		"an EventFrame carrying the frame just read on the success edge (after the optional onEventFrame hook) — and the only other exit returns the read error unchanged", 3)
-	checkReaderLoop(c, rd)
+	checkReaderLoop(c, rd, "R10.4")
 
 	// R10.5 lossless hand-over
 	r.Rule("R10.5", "Node.pushEvent is a blocking select with exactly {send the event unchanged on the event channel, receive terminate}: no default, so no event is dropped while the application keeps receiving", 1)
@@ -1140,17 +1146,17 @@ func checkCloseEvent(c *Ctx, chRun *ssa.Function) {
 	r.Check(ok, "R10.3", "EventChannelClose.Error", c.Pos(chRun.Pos()), "carries the error received from the reader: "+got, "the close event's Error is not the value received from the reader goroutine ("+got+")")
 }
 
-func checkReaderLoop(c *Ctx, rd *ssa.Function) {
+func checkReaderLoop(c *Ctx, rd *ssa.Function, rule string) {
 	r := c.R
 	reads := callsNamed(rd, "(frame.Reader).Read")
 	if len(reads) != 1 {
-		r.Fail("R10.4", "runReader loop", c.Pos(rd.Pos()), fmt.Sprintf("expected exactly one Read call in runReader, found %d", len(reads)))
+		r.Fail(rule, "runReader loop", c.Pos(rd.Pos()), fmt.Sprintf("expected exactly one Read call in runReader, found %d", len(reads)))
 		return
 	}
 	read := reads[0].(*ssa.Call)
 	head := read.Block()
 	if !inLoop(head) {
-		r.Fail("R10.4", "runReader loop", c.Pos(read.Pos()), "the read of the transport is not inside a loop")
+		r.Fail(rule, "runReader loop", c.Pos(read.Pos()), "the read of the transport is not inside a loop")
 		return
 	}
 	frameV, errV := "", ""
@@ -1199,6 +1205,16 @@ func checkReaderLoop(c *Ctx, rd *ssa.Function) {
 				}
 				t := typeStr(a.Type().(*types.Pointer).Elem())
 				lf := litFields(a)
+				// the application keeps the event it receives: each one is a fresh object allocated in this iteration
+				fresh := false
+				for _, pb := range body {
+					if pb == a.Block() {
+						fresh = true
+					}
+				}
+				if !fresh {
+					bad["the event pushed for a read result is not allocated in the same loop iteration (one "+t+" object is reused: a consumer still holding the previous event sees it overwritten by the next frame)"] = true
+				}
 				switch t {
 				case "gomavlib.EventFrame":
 					if exOrNil(lf["Frame"]) != frameV {
@@ -1250,16 +1266,45 @@ func checkReaderLoop(c *Ctx, rd *ssa.Function) {
 		}
 	})
 	if !okEnum {
-		r.Broken("R10.4", "runReader loop", "too many paths")
+		r.Broken(rule, "runReader loop", "too many paths")
 		return
 	}
 	if len(bad) == 0 {
-		r.OK("R10.4", "runReader loop", c.Pos(read.Pos()), fmt.Sprintf("%d loop paths and %d exit path(s) enumerated: one event per read result", nLoop, nExit))
+		r.OK(rule, "runReader loop", c.Pos(read.Pos()), fmt.Sprintf("%d loop paths and %d exit path(s) enumerated: one event per read result", nLoop, nExit))
 	} else {
 		for _, k := range keysOf(bad) {
-			r.Fail("R10.4", "runReader loop", c.Pos(read.Pos()), k)
+			r.Fail(rule, "runReader loop", c.Pos(read.Pos()), k)
 		}
 	}
-	r.Check(nLoop >= 3, "R10.4", "runReader loop paths", c.Pos(read.Pos()), "parse-error, frame, frame+hook paths present", fmt.Sprintf("only %d loop paths found", nLoop))
-	r.Check(nExit == 1, "R10.4", "runReader exit paths", c.Pos(read.Pos()), "single exit: return of the transport error", fmt.Sprintf("%d exit paths", nExit))
+	r.Check(nLoop >= 3, rule, "runReader loop paths", c.Pos(read.Pos()), "parse-error, frame, frame+hook paths present", fmt.Sprintf("only %d loop paths found", nLoop))
+	r.Check(nExit == 1, rule, "runReader exit paths", c.Pos(read.Pos()), "single exit: return of the transport error", fmt.Sprintf("%d exit paths", nExit))
+}
+
+// noopCloserExists: the name of an io.ReadWriteCloser wrapper type of package gomavlib whose Close method does not
+// close anything (removeCloser on the reference tree), "" if there is none.
+func noopCloserExists(c *Ctx) string {
+	for _, fn := range rootFns(c) {
+		if fn.Name() != "Close" || fn.Signature.Recv() == nil || fn.Parent() != nil {
+			continue
+		}
+		closes := false
+		for _, in := range allInstrs(fn) {
+			if ci, ok := in.(ssa.CallInstruction); ok {
+				cc := ci.Common()
+				if (cc.IsInvoke() && cc.Method.Name() == "Close") || strings.HasSuffix(calleeName(cc), ".Close") || strings.HasSuffix(calleeName(cc), ".close") || calleeName(cc) == "close" {
+					closes = true
+				}
+				if calleeName(cc) == "" && !cc.IsInvoke() {
+					closes = true // calls a function value (e.g. a cancel func)
+				}
+			}
+		}
+		// only wrappers that are used as a channel transport: the type has Read and Write too
+		ms := c.Prog.MethodSets.MethodSet(fn.Signature.Recv().Type())
+		hasRW := ms.Lookup(nil, "Read") != nil && ms.Lookup(nil, "Write") != nil
+		if !closes && hasRW && fn.Signature.Results().Len() == 1 {
+			return fnLocalName(fn)
+		}
+	}
+	return ""
 }
